@@ -21,6 +21,9 @@
 (*   "error_recorded"         a WRONGTYPE HSET was recorded                *)
 (*   "remote_hash_over_string" a remote hash did not replace a served      *)
 (*                            string (executor HSET fails with WRONGTYPE)  *)
+(*   "rmw_drops_ttl"          INCR / APPEND / GETSET on a key with a TTL   *)
+(*                            were recorded without it: the accepting node *)
+(*                            let the key expire, its peers kept it        *)
 (***************************************************************************)
 EXTENDS CrdtOps, Naturals, Sequences, FiniteSets, TLC
 
@@ -36,14 +39,17 @@ vars == <<rs, served, clk, net, ncmds, ndup, nsent, nae>>
 Dev(d) == d \in AsBuilt
 
 NoH == [f \in {} |-> ""]
-SNone == [t |-> "none", v |-> "", h |-> NoH]
-SStr(v) == [t |-> "str", v |-> v, h |-> NoH]
-SHash(h) == IF DOMAIN h = {} THEN SNone ELSE [t |-> "hash", v |-> "", h |-> h]
+(* e: the TTL the served string carries (relative milliseconds as given by the command, -1 = none); the clocks of the  *)
+(* nodes under test stand still, so the TTL a node reports for a key is the TTL it was given                           *)
+SNone == [t |-> "none", v |-> "", h |-> NoH, e |-> -1]
+SStrE(v, e) == [t |-> "str", v |-> v, h |-> NoH, e |-> e]
+SStr(v) == SStrE(v, -1)
+SHash(h) == IF DOMAIN h = {} THEN SNone ELSE [t |-> "hash", v |-> "", h |-> h, e |-> -1]
 
 (* what the replication state says clients should be served *)
 Served(x) ==
   IF IsNone(x) THEN SNone
-  ELSE IF x.c.k = "lww" THEN (IF LwwLive(x.c.l) THEN SStr(x.c.l.v) ELSE SNone)
+  ELSE IF x.c.k = "lww" THEN (IF LwwLive(x.c.l) THEN SStrE(x.c.l.v, x.exp) ELSE SNone)
   ELSE IF x.c.k = "hash" THEN SHash([f \in {g \in DOMAIN x.c.h : LwwLive(x.c.h[g])} |-> x.c.h[f].v])
   ELSE SNone
 
@@ -55,16 +61,16 @@ Incr(v) == CASE v = "1" -> "2" [] v = "2" -> "3" [] v = "3" -> "4" [] OTHER -> "
 
 (* the local effect of a command on what is served: [ok, s'] *)
 Exec(s, cmd) ==
-  CASE cmd.op = "set"    -> [ok |-> TRUE, s |-> SStr(cmd.v)]
+  CASE cmd.op = "set"    -> [ok |-> TRUE, s |-> SStrE(cmd.v, cmd.e)]
     [] cmd.op = "setnx"  -> IF s.t = "none" THEN [ok |-> TRUE, s |-> SStr(cmd.v)] ELSE [ok |-> FALSE, s |-> s]
     [] cmd.op = "setxx"  -> IF s.t # "none" THEN [ok |-> TRUE, s |-> SStr(cmd.v)] ELSE [ok |-> FALSE, s |-> s]
-    [] cmd.op = "getset" -> IF s.t = "hash" THEN [ok |-> FALSE, s |-> s] ELSE [ok |-> TRUE, s |-> SStr(cmd.v)]
+    [] cmd.op = "getset" -> IF s.t = "hash" THEN [ok |-> FALSE, s |-> s] ELSE [ok |-> TRUE, s |-> SStrE(cmd.v, s.e)]   \* as built: keeps the TTL
     [] cmd.op = "del"    -> [ok |-> s.t # "none", s |-> SNone]
     [] cmd.op = "incr"   -> IF s.t = "none" THEN [ok |-> TRUE, s |-> SStr("1")]
-                            ELSE IF s.t = "str" /\ Incr(s.v) # "err" THEN [ok |-> TRUE, s |-> SStr(Incr(s.v))]
+                            ELSE IF s.t = "str" /\ Incr(s.v) # "err" THEN [ok |-> TRUE, s |-> SStrE(Incr(s.v), s.e)]
                             ELSE [ok |-> FALSE, s |-> s]
     [] cmd.op = "append" -> IF s.t = "hash" THEN [ok |-> FALSE, s |-> s]
-                            ELSE [ok |-> TRUE, s |-> SStr((IF s.t = "str" THEN s.v ELSE "") \o cmd.v)]
+                            ELSE [ok |-> TRUE, s |-> SStrE((IF s.t = "str" THEN s.v ELSE "") \o cmd.v, s.e)]
     [] cmd.op = "hset"   -> IF s.t = "str" THEN [ok |-> FALSE, s |-> s]
                             ELSE [ok |-> TRUE, s |-> SHash([f \in DOMAIN s.h \cup {cmd.f} |-> IF f = cmd.f THEN cmd.v ELSE s.h[f]])]
     [] cmd.op = "hdel"   -> IF s.t = "hash" /\ cmd.f \in DOMAIN s.h
@@ -80,7 +86,9 @@ Record(n, cmd, ex, t) ==
        [] cmd.op = "setnx" ->
             IF ex.ok \/ (Dev("nx_records_unapplied") /\ served[n].t = "str") THEN OpSet(x, n, t, cmd.v, cmd.e) ELSE None
        [] cmd.op \in {"getset", "incr", "append"} ->
-            IF ex.ok THEN OpSet(x, n, t, ex.s.v, -1) ELSE None
+            \* these commands keep the TTL of a live key on the node that runs them (GETSET as built, see C01's finding
+            \* getset_keeps_ttl), so the record carries what remains of it; a key they create has none
+            IF ex.ok THEN OpSet(x, n, t, ex.s.v, IF has /\ x.c.k = "lww" /\ LwwLive(x.c.l) /\ ~Dev("rmw_drops_ttl") THEN x.exp ELSE -1) ELSE None
        [] cmd.op = "del" ->
             IF ~has THEN None
             ELSE IF x.c.k = "lww" \/ ~Dev("del_hash_noop")
@@ -116,7 +124,7 @@ Client(n, cmd) == ClientWith(n, cmd, Exec(served[n], cmd))
 AfterMerge(s, merged) ==
   IF merged.c.k = "hash" /\ s.t = "str" /\ Dev("remote_hash_over_string") THEN s
   ELSE IF merged.c.k = "hash" THEN Served(merged)
-  ELSE IF LwwLive(merged.c.l) THEN SStr(merged.c.l.v)
+  ELSE IF LwwLive(merged.c.l) THEN SStrE(merged.c.l.v, merged.exp)
   ELSE IF merged.c.l.tomb THEN SNone
   ELSE s
 
